@@ -360,3 +360,16 @@ func guardCut(guard func(l Lit) bool) func(b *ssa.BasicBlock, i int, l *Lit) boo
 		return true
 	}
 }
+
+// fieldName: the name of the field a FieldAddr selects.
+func fieldName(fa *ssa.FieldAddr) string {
+	pt, ok := fa.X.Type().Underlying().(*types.Pointer)
+	if !ok {
+		return ""
+	}
+	st, ok := pt.Elem().Underlying().(*types.Struct)
+	if !ok || fa.Field >= st.NumFields() {
+		return ""
+	}
+	return st.Field(fa.Field).Name()
+}
